@@ -293,16 +293,26 @@ def r04_5_final_sweep(ctx):
             return
         sweeps[nm] = found[0]
     cv, cm = sweeps["verifyOpsForVersion"], sweeps["verifyOpsForMode"]
+    comps = q.name_assigned_from(f.node, q.is_call_to("flattenSubroutines"), "the flattened component list in _compile_impl")
+    opts = q.name_assigned_from(f.node, q.is_call_to("CompileOptions"), "the CompileOptions object in _compile_impl")
     fl = q.one(q.calls_named(f.node, "flattenSubroutines", into_nested=False), "_compile_impl: flattenSubroutines")
     asm = [c for c in q.calls_named(f.node, "assemble", into_nested=False)]
     asm = q.one(asm, "_compile_impl: assemble")
-    for name, c, arg2 in (("version", cv, "options.version"), ("mode", cm, "options.mode")):
-        ok = u(c.args[0]) == "components" and u(c.args[1]) == arg2 and not q.nguards(c, ("branch",)) and q.dominates(c, asm) and fl.lineno < c.lineno
+    for name, c, arg2 in (("version", cv, f"{opts}.version"), ("mode", cm, f"{opts}.mode")):
+        ok = u(c.args[0]) == comps and u(c.args[1]) == arg2 and not q.nguards(c, ("branch",)) and q.dominates(c, asm) and fl.lineno < c.lineno
         ctx.check(ok, "R04.5", f"_compile_impl:sweep-{name}", f"verifyOpsFor{name.capitalize()}(components, {arg2}) must run unconditionally on the flattened component list before assembly; found `{u(c)}` under {q.nguards(c, ('branch',))}", f"{f.module.rel}:{c.lineno}", fact={"call": u(c)})
     # nothing but the constants pass and the pragma prefix touches `components` after the sweep
-    later = [n for n in walk_local(f.node) if isinstance(n, ast.Assign) and u(n.targets[0]) == "components" and n.lineno > cm.lineno]
-    srcs = sorted(u(n.value) for n in later)
-    ctx.check(srcs == ["componentsPrefix + components", "createConstantBlocks(components)"], "R04.5", "_compile_impl:after-sweep", f"after the sweep the component list may only be passed through createConstantBlocks and prefixed with the pragma; found {srcs}", f.where, fact={"assignments": srcs})
+    later = [n for n in walk_local(f.node) if isinstance(n, ast.Assign) and u(n.targets[0]) == comps and n.lineno > cm.lineno]
+
+    def kind(v):
+        if isinstance(v, ast.Call) and q.last_name(v) == "createConstantBlocks" and [u(a) for a in v.args] == [comps]:
+            return "constants-pass"
+        if isinstance(v, ast.BinOp) and isinstance(v.op, ast.Add) and u(v.right) == comps and isinstance(v.left, ast.Name) and all(isinstance(d, ast.List) and all(isinstance(x, ast.Call) and q.last_name(x) == "TealPragma" for x in d.elts) for d in q.assigns_to(f.node, v.left.id)):
+            return "pragma-prefix"
+        return "other: " + u(v)
+
+    srcs = sorted(kind(n.value) for n in later)
+    ctx.check(srcs == ["constants-pass", "pragma-prefix"], "R04.5", "_compile_impl:after-sweep", f"after the sweep the component list may only be passed through createConstantBlocks and prefixed with the pragma; found {srcs}", f.where, fact={"assignments": srcs})
     cb = q.one(q.calls_named(f.node, "createConstantBlocks", into_nested=False), "_compile_impl: createConstantBlocks")
     gs = q.nguards(cb)
     need3 = max(avm.OPS["pushint"]["v"], avm.OPS["pushbytes"]["v"])
@@ -311,7 +321,7 @@ def r04_5_final_sweep(ctx):
     # the pragma carries the compiled version
     tp = [c for c in q.calls_named(f.node, "TealPragma", into_nested=False) if any(k.arg == "version" for k in c.keywords)]
     ctx.check(len(tp) == 1 and u([k.value for k in tp[0].keywords if k.arg == "version"][0]) == "self.version", "R04.5", "_compile_impl:pragma-version", "the program must open with TealPragma(version=self.version)", f.where, fact={})
-    pre = [n for n in walk_local(f.node) if isinstance(n, ast.Assign) and u(n.targets[0]) == "components" and u(n.value) == "componentsPrefix + components"]
+    pre = [n for n in walk_local(f.node) if isinstance(n, ast.Assign) and u(n.targets[0]) == comps and isinstance(n.value, ast.BinOp) and isinstance(n.value.op, ast.Add) and u(n.value.right) == comps and any(isinstance(x, ast.Call) and q.last_name(x) == "TealPragma" for d in q.assigns_to(f.node, u(n.value.left)) for x in ast.walk(d))]
     ctx.check(len(pre) == 1, "R04.5", "_compile_impl:pragma-first", "the pragma prefix must be placed in front of the components", f.where, fact={})
     ctx.require_min("R04.5", 30)
 
